@@ -235,6 +235,7 @@ pub fn letter_name(c: u8) -> &'static str {
         b'Q' => "quit",
         b'E' => "(epilogue: stop if needed, await, isready)",
         b'1' => "(dialect: positions with exactly one legal move; go depth N also carries both clocks)",
+        b'2' => "(dialect: the start position)",
         _ => "?",
     }
 }
@@ -308,7 +309,15 @@ fn run_script(script: &[u8], abstract_states: &Mutex<BTreeSet<String>>) {
     let mut u = engine::uci::Uci::verif_new(1);
     // dialect 1 (scripts starting with '1'): roots with exactly one legal move, searches that carry clocks as well
     let forced = script.first() == Some(&b'1');
-    let pos = if forced { "position fen 8/8/8/8/8/5k2/8/r6K w - - 0 1" } else { POS };
+    // dialect 2 (scripts starting with '2'): the start position, where the move-ordering tables matter
+    let rich = script.first() == Some(&b'2');
+    let pos = if forced {
+        "position fen 8/8/8/8/8/5k2/8/r6K w - - 0 1"
+    } else if rich {
+        "position startpos"
+    } else {
+        POS
+    };
     u.verif_run_line(pos).unwrap();
     let (mut gos, mut isr) = (0usize, 0usize);
     let (mut outstanding, mut can_arrive, mut quit) = (false, false, false);
@@ -333,9 +342,17 @@ fn run_script(script: &[u8], abstract_states: &Mutex<BTreeSet<String>>) {
                 }
                 assert!(u.verif_run_line(pos).unwrap());
             }
-            b'1' => {}
+            b'1' | b'2' => {}
             b'P' => {
-                assert!(u.verif_run_line(if forced { "position fen R6k/8/5K2/8/8/8/8/8 b - - 0 1" } else { "position fen 8/8/8/8/8/8/4P3/K6k w - - 0 1 moves e2e4" }).unwrap());
+                assert!(u
+                    .verif_run_line(if forced {
+                        "position fen R6k/8/5K2/8/8/8/8/8 b - - 0 1"
+                    } else if rich {
+                        "position startpos moves e2e4"
+                    } else {
+                        "position fen 8/8/8/8/8/8/4P3/K6k w - - 0 1 moves e2e4"
+                    })
+                    .unwrap());
             }
             b'H' => {
                 // always a value different from the one in force (2, 3, 2, ...)
@@ -399,7 +416,32 @@ fn run_script(script: &[u8], abstract_states: &Mutex<BTreeSet<String>>) {
     if !quit {
         assert_eq!(count("bestmove"), gos, "a go was not answered by exactly one bestmove");
     }
+    // same commands, same searches: what the searches print must not depend on the schedule
+    let expected = EXPECT_TRACE.with(|e| e.borrow().clone());
+    if let Some(exp) = expected {
+        let got = search_trace();
+        assert!(got == exp, "the searches of this script print different lines under this schedule than under the schedule without preemptions: {:?} instead of {:?}", first_difference(&got, &exp).0, first_difference(&got, &exp).1);
+    }
     EXITED.with(|e| e.set(true));
+}
+
+thread_local! {
+    static EXPECT_TRACE: std::cell::RefCell<Option<Vec<String>>> = const { std::cell::RefCell::new(None) };
+}
+
+/// The info and bestmove lines printed so far, without their time and nps fields.
+fn search_trace() -> Vec<String> {
+    LOG.with(|l| l.borrow().iter().filter(|x| x.starts_with("info") || x.starts_with("bestmove")).map(|x| strip_info(x)).collect())
+}
+
+fn first_difference(a: &[String], b: &[String]) -> (String, String) {
+    for i in 0..a.len().max(b.len()) {
+        let (x, y) = (a.get(i).cloned().unwrap_or_default(), b.get(i).cloned().unwrap_or_default());
+        if x != y {
+            return (x, y);
+        }
+    }
+    (String::new(), String::new())
 }
 
 pub fn all_scripts(maxlen: usize) -> Vec<Vec<u8>> {
@@ -758,6 +800,54 @@ fn main() {
             let run: &'static Run = Box::leak(Box::new(Run::new("C05", tier, seed)));
             std::process::exit(c05(run));
         }
+        Some("determinism") => {
+            // C12 under schedules: scripts with at least two finite searches on the start position; under every schedule
+            // the searches must print what they print under the schedule without preemptions
+            let tier = args.get(2).map(|s| s.as_str()).unwrap_or("quick");
+            let (maxlen, bound) = if tier == "quick" { (5, 2) } else { (6, 2) };
+            let scripts: Vec<Vec<u8>> = all_scripts(maxlen)
+                .into_iter()
+                // every search runs to its depth limit: no stop, no quit, no unbounded search
+                .filter(|s| s.iter().filter(|c| b"FD".contains(c)).count() >= 2 && !s.contains(&b'G') && !s.contains(&b'S') && !s.contains(&b'Q'))
+                .map(|s| {
+                    let mut t = vec![b'2'];
+                    t.extend(s);
+                    t
+                })
+                .collect();
+            let totals = Mutex::new((0u64, 0u64));
+            let fails: Mutex<Vec<J>> = Mutex::new(vec![]);
+            util::par_for(scripts.len(), |i| {
+                EXPECT_TRACE.with(|e| *e.borrow_mut() = None);
+                let (_, f0, _) = replay_schedule(&scripts[i], &[]);
+                if f0.is_some() {
+                    return; // a script that fails without preemptions is C05's business
+                }
+                let reference = search_trace();
+                EXPECT_TRACE.with(|e| *e.borrow_mut() = Some(reference));
+                let abs = Arc::new(Mutex::new(BTreeSet::new()));
+                let e = explore(&scripts[i], bound, &abs);
+                let mut t = totals.lock().unwrap();
+                t.0 += e.executions;
+                t.1 += e.steps;
+                drop(t);
+                if let Some((msg, choices)) = e.failure {
+                    let (_, f1, _) = replay_schedule(&scripts[i], &choices);
+                    let (_, f2, _) = replay_schedule(&scripts[i], &choices);
+                    let mut c = case_json(&scripts[i], bound, &choices);
+                    if let J::Obj(o) = &mut c {
+                        o.push(("expect_default_schedule".to_string(), J::Bool(true)));
+                        o.push(("message".to_string(), J::s(msg.lines().next().unwrap_or("").chars().take(400).collect::<String>())));
+                        o.push(("replays_deterministically".to_string(), J::Bool(f1.is_some() && f2.is_some())));
+                    }
+                    fails.lock().unwrap().push(c);
+                }
+                EXPECT_TRACE.with(|e| *e.borrow_mut() = None);
+            });
+            let (ex, st) = *totals.lock().unwrap();
+            let out = J::obj(vec![("scripts", J::i(scripts.len() as i64)), ("max_length", J::i(maxlen as i64)), ("preemption_bound", J::i(bound as i64)), ("executions", J::i(ex)), ("steps", J::i(st)), ("failures", J::Arr(fails.into_inner().unwrap()))]);
+            println!("NEWGAME-RESULT {}", out.dump().replace('\n', " "));
+        }
         Some(mode @ ("newgame" | "setoption")) => {
             // C12 / C13 under schedules: every well-formed script in which a ucinewgame (a setoption Hash) follows a search
             let tier = args.get(2).map(|s| s.as_str()).unwrap_or("quick");
@@ -828,6 +918,12 @@ fn main() {
                         std::process::exit(1);
                     }
                 }
+            }
+            if matches!(case.get("expect_default_schedule"), Some(J::Bool(true))) {
+                let _ = replay_schedule(&script, &[]);
+                let reference = search_trace();
+                println!("schedule without preemptions prints {} search lines", reference.len());
+                EXPECT_TRACE.with(|e| *e.borrow_mut() = Some(reference));
             }
             if matches!(case.get("check_fresh"), Some(J::Bool(true))) {
                 verif_hooks::CHECK_FRESH.with(|c| c.set(true));
